@@ -249,8 +249,27 @@ def check(ctx):
                         for nm, v in sb.st.env.items():
                             if v in scan_vars and isinstance(nm, str):
                                 scan_vars.add(("unk", "%s@loop%s" % (nm, lp.a.get("loop"))))
+            # the scan written over the bytes themselves: for b in carry[1:]: if b < 0x80: ...; n += 1 - the loop variable is the byte
+            # carry[n], the counter that starts at 1 and goes up by one with every byte passed over is the scan variable
+            elem_vars = set()
+            elem_scan_ok = False
+            for lp in scan_loops:
+                if lp.a.get("lkind") == "for" and lp.a.get("iter") == ("slice", B, ("const", 1), NONE, NONE) and isinstance(lp.a.get("target"), str):
+                    elem_vars.add(("unk", "%s@loop%s" % (lp.a["target"], lp.a.get("loop"))))
+                    pre = lp.a.get("pre") or {}
+                    for nm, v0 in pre.items():
+                        if v0 != ("const", 1) or not isinstance(nm, str):
+                            continue
+                        cv = ("unk", "%s@loop%s" % (nm, lp.a.get("loop")))
+                        bodies = [sb for sb in lp.a["body"] if sb.st is not None]
+                        steps_ok = bool(bodies) and all(
+                            sb.st.env.get(nm) in ((("binop", "Add", cv, ("const", 1)), ("binop", "Add", ("const", 1), cv))
+                                                  if sb.exit_kind() in ("fall", "continue") else (cv,)) for sb in bodies)
+                        if steps_ok:
+                            scan_vars.add(cv)
+                            elem_scan_ok = True
             # the scan variable starts at 1 (byte 0 is the type/flags byte): its value before the scan loop
-            scan_ok = False
+            scan_ok = elem_scan_ok
             for lp in scan_loops:
                 pre = lp.a.get("pre") or {}
                 for v in scan_vars:
@@ -270,24 +289,29 @@ def check(ctx):
             ctx.ob("F3", "%s remaining length decoded from the carry starting at byte 1" % cq, from_one, where=where(call[0]) if call else where(D),
                    function=framer_q, construct="%s/length-source" % framer_q, msg="decodeLength applied to %s" % ([show(x) for x in call[0].a["args"]] if call else None))
             leaves = leaves_of_sum(E)
-            rl = leaves_of_sum(ret[0].a["val"]) if ret else []
-            rest = list(leaves)
-            okE = bool(ret)
-            for x in rl:
-                if x in rest:
-                    rest.remove(x)
-                else:
-                    okE = False
-            okE = okE and len(rest) == 2 and ("const", 1) in rest and any(v in rest for v in scan_vars)
+            okE = False
+            # (decodeLength may return from more than one place - inside its loop and after it: E matches the value one of them yields)
+            for r_ in ret:
+                rl = leaves_of_sum(r_.a["val"])
+                rest = list(leaves)
+                ok1 = True
+                for x in rl:
+                    if x in rest:
+                        rest.remove(x)
+                    else:
+                        ok1 = False
+                if ok1 and len(rest) == 2 and ("const", 1) in rest and any(v in rest for v in scan_vars):
+                    okE = True
             ctx.ob("F3", "%s E = decoded length + width of the length field + 1" % cq, okE, where=where(D), function=framer_q,
                    construct="%s/extent" % framer_q, msg="packet extent computed as %s" % show(E))
             masks = set()
             for c in allconds:
                 for x in subterms(c.term):
-                    if isinstance(x, tuple) and x[0] == "binop" and x[1] == "BitAnd" and isinstance(x[2], tuple) and x[2][:2] == ("sub", B) and is_const(x[3]):
+                    if isinstance(x, tuple) and x[0] == "binop" and x[1] == "BitAnd" and isinstance(x[2], tuple) and (x[2][:2] == ("sub", B) or x[2] in elem_vars) \
+                            and is_const(x[3]):
                         masks.add(x[3][1])
                     # the same bit tested on the whole byte: b < 0x80 / b >= 0x80 / b > 0x7F / b <= 0x7F
-                    if isinstance(x, tuple) and x[0] == "cmp" and isinstance(x[2], tuple) and x[2][:2] == ("sub", B) and is_const(x[3]) \
+                    if isinstance(x, tuple) and x[0] == "cmp" and isinstance(x[2], tuple) and (x[2][:2] == ("sub", B) or x[2] in elem_vars) and is_const(x[3]) \
                             and isinstance(x[3][1], int):
                         if x[1] in ("<", ">="):
                             masks.add(x[3][1])
